@@ -83,6 +83,8 @@ func FSRunHistory(c FSCfg, hist []string, c15 bool, scratch string) (viol string
 				v = w.ExternalRotate()
 			case op == "extrename":
 				v = w.ExternalRename()
+			case op == "extwipe":
+				v = w.ExternalWipe()
 			case op == "+1ns":
 				v = w.Advance(time.Nanosecond)
 			case op == "+31ms":
@@ -113,12 +115,16 @@ type FSJob struct {
 	First int
 	Long  bool
 	Age   bool // long histories over {1 byte, +16ms, +31ms}: the age of the active file, in steps shorter than MaxDuration
+	Wipe  bool // long histories over {1 byte, rotating write, directory removed externally + Reopen, +31ms}
 }
 
 // LongOps is the alphabet of a long-history job.
 func (j FSJob) LongOps(c FSCfg) []string {
 	if j.Age {
 		return []string{"w1", "+16ms", "+31ms"}
+	}
+	if j.Wipe {
+		return []string{"w1", FSLongOps(c)[1], "extwipe", "+31ms"}
 	}
 	return FSLongOps(c)
 }
@@ -135,6 +141,7 @@ func FSJobList(tier string) []FSJob {
 		if c.MaxDuration > 0 {
 			out = append(out, FSJob{Cfg: ci, Long: true, Age: true})
 		}
+		out = append(out, FSJob{Cfg: ci, Long: true, Wipe: true})
 	}
 	return out
 }
